@@ -148,6 +148,17 @@ def gen_ops(rng, lp, n_ops):
     return ops, cur, a, b
 
 
+def extreme(*lps):
+    """some datum outside 10^-30 .. 10^30"""
+    big = F(10) ** 30
+    for lp in lps:
+        vals = [c[0] for c in lp.cols] + [r[1] for r in lp.rows] + [a for r in lp.rows for _, a in r[3]]
+        vals += [v for c in lp.cols for v in c[1:3] if v not in (INF, NINF)]
+        if any(v != 0 and (abs(v) > big or abs(v) * big < 1) for v in vals):
+            return True
+    return False
+
+
 def wf(lp):
     return all(c[1] == NINF or c[2] == INF or F(c[1]) <= F(c[2]) for c in lp.cols) and all(F(r[2]) >= 0 for r in lp.rows)
 
@@ -178,11 +189,15 @@ def run(pid, tier, seed):
     # boxed variables entering without a blocking row (bound flips): the path where UNBOUNDED is decided by floating point alone
     for _ in range(90 if quick else 900):
         base.append(("boxed", gen.random_lp(rng, m=rng.rint(8, 16), n=rng.rint(10, 22), dens=0.3, shapes=["box", "box", "default", "box"], senses="LLGE")))
+    # free structural variables non-basic at zero when phase II starts: the entering direction is decided by the sign of
+    # the reduced cost alone
+    for _ in range(60 if quick else 600):
+        base.append(("boxed free", gen.random_lp(rng, m=rng.rint(3, 9), n=rng.rint(4, 10), dens=0.5, shapes=["free", "free", "default", "box"], senses="LLGE")))
     base = [(k, lp) for k, lp in base if wf(lp) and lp.cols]
     jobs = []
     for kind, lp in base:
         r = rng.fork("ops" + lp.line()[:300])
-        for _ in range(1 if kind.startswith("big") else (2 if quick and kind == "boxed" else 1 if quick else 3)):
+        for _ in range(1 if kind.startswith("big") else (2 if quick and kind.startswith("boxed") else 1 if quick else 3)):
             ops, lp2, a, b = gen_ops(r, lp, r.rint(1, 5))
             if lp.rows and r.chance(0.25):
                 # appended rows only (singleton / short rows too): the transformed problem is then built by API edits of the original
@@ -192,7 +207,7 @@ def run(pid, tier, seed):
                     cur, a, b = apply_op(cur, o, a, b)
                     ops.append(o)
                 lp2 = cur
-            entry = "exact primal" if kind == "boxed" else r.choice(["exact primal", "exact dual", "exact primal"])
+            entry = "exact primal" if kind.startswith("boxed") else r.choice(["exact primal", "exact dual", "exact primal"])
             jobs.append((kind, lp, ops, lp2, a, b, entry))
 
     # ---- model tie: the same composition through Qsx.Xform
@@ -257,6 +272,11 @@ def run(pid, tier, seed):
             continue
         ev.stat("status:%s" % solvelib.ST.get(s1, s1))
         definitive = ("1", "2", "3")
+        if s1 != s2 and not (s1 in definitive and s2 in definitive) and extreme(lp, lp2):
+            # one formulation got no answer at all (not a different one) on data of 10^+-40 magnitude: the precision
+            # ladder's absolute tolerances do not reach that far (DESIGN.md 11, false alarms); counted, not a violation
+            ev.stat("non-definitive on extreme-magnitude data")
+            continue
         if s1 != s2 and (s1 in definitive or s2 in definitive):
             rep.violation("status %s for the original, %s for the equivalent formulation (%s)" % (solvelib.ST.get(s1, s1), solvelib.ST.get(s2, s2), " ; ".join(optoks)), ctx,
                           signature={"symptom": "status-differs"})
